@@ -36,6 +36,11 @@ func (m *Multi) ClearLoaders() {
 // Open will open the file passed by trying all loaders in succession.
 func (m *Multi) Open(name string) (io.ReadCloser, error) {
 	for _, loader := range m.loaders {
+		// only a loader that has the template answers: a loader's Open may also succeed for something
+		// its Exists does not report (a directory)
+		if !loader.Exists(name) {
+			continue
+		}
 		if f, err := loader.Open(name); err == nil {
 			return f, nil
 		}
